@@ -539,6 +539,75 @@ func checkC18(e *Engine, r *Report) {
 			sort.Strings(extra)
 			r.Check(len(extra) == 0 && len(missing) == 0 && okParams, shortPkg(mod.pkg)+".InitGenesis › imports the genesis state verbatim", e.Pos(f.Pos()), "keeper writers: "+strings.Join(mod.writers, ", ")+"; SetParams(ctx, data.Params) as given", "InitGenesis does not store exactly what the genesis state holds (unexpected writer calls: ["+strings.Join(extra, ", ")+"], missing: ["+strings.Join(missing, ", ")+"], parameters stored verbatim: "+fmt.Sprint(okParams)+"): importing an export does not reproduce the exported state, and a second export differs from the first")
 		}
+		// cpc: a genesis flag that makes InitGenesis run a deployment whose address is taken from the module account's sequence
+		// (GetNextDynamicCustomPrecompiledContractAddress) is an instruction, not state: exported as set, the import would deploy
+		// the contract again at a different address and advance the sequence, so export → import → export does not reproduce
+		{
+			cpcInit := e.Fn(EV+"/x/cpc", "InitGenesis")
+			cpcExp := e.Fn(EV+"/x/cpc", "ExportGenesis")
+			dyn := map[*ssa.Function]bool{}
+			if f := e.TryFn(pkgCpcKeeper, "Keeper.GetNextDynamicCustomPrecompiledContractAddress"); f != nil {
+				dyn[f] = true
+			}
+			kfs := e.SrcFuncs(func(p string) bool { return p == pkgCpcKeeper })
+			for changed := true; changed; {
+				changed = false
+				for _, f := range kfs {
+					if dyn[f] || f.Parent() != nil {
+						continue
+					}
+					for _, c := range callsIn(f, true, func(ssa.CallInstruction) bool { return true }) {
+						if sc := c.Common().StaticCallee(); sc != nil && dyn[sc] {
+							dyn[f], changed = true, true
+							break
+						}
+					}
+				}
+			}
+			dynFlags := map[string]bool{}
+			for _, i := range ifs(cpcInit) {
+				fv := fieldVar(i.Cond)
+				if u, isU := i.Cond.(*ssa.UnOp); isU && fv == nil {
+					fv = fieldVar(u.X)
+				}
+				if fv == nil {
+					continue
+				}
+				for b := range reachable(cpcInit, i.Block().Succs[0], nil) {
+					if b == i.Block().Succs[1] {
+						continue
+					}
+					for _, in := range b.Instrs {
+						if c, ok := in.(ssa.CallInstruction); ok {
+							if sc := c.Common().StaticCallee(); sc != nil && dyn[sc] && i.Block().Succs[0].Dominates(b) {
+								dynFlags[fv.Name()] = true
+							}
+						}
+					}
+				}
+			}
+			okFlags := len(dyn) > 0
+			var badFlags []string
+			for _, ret := range returnsOf(cpcExp) {
+				lit := resolveLocal(ret.Results[0])
+				if u, isU := lit.(*ssa.UnOp); isU {
+					lit = u.X
+				}
+				fields := literalFields(lit)
+				for fl := range dynFlags {
+					v, set := fields[fl]
+					if !set {
+						continue // zero value: false
+					}
+					if b, isK := constBool(v); !isK || b {
+						okFlags = false
+						badFlags = append(badFlags, fl)
+					}
+				}
+			}
+			sort.Strings(badFlags)
+			r.Check(okFlags, "x/cpc.ExportGenesis › sequence-dependent deployments are not re-triggered", e.Pos(cpcExp.Pos()), fmt.Sprintf("dynamic-address deploy flags %v exported as false", keysOf(dynFlags)), "ExportGenesis sets a genesis flag ("+strings.Join(badFlags, ", ")+") that makes InitGenesis deploy a contract at an address derived from the module account's sequence: the re-imported chain has that contract at another address, the sequence advances, and a second export differs from the first")
+		}
 		// the iteration helpers export/import are built on hand over every entry
 		{
 			chk, probs := iterationHelpersComplete(e)
@@ -799,4 +868,13 @@ func iterationHelpersComplete(e *Engine) (checked []string, problems []string) {
 	sort.Strings(checked)
 	sort.Strings(problems)
 	return
+}
+
+func keysOf(m map[string]bool) []string {
+	var out []string
+	for k := range m {
+		out = append(out, k)
+	}
+	sort.Strings(out)
+	return out
 }
